@@ -15,7 +15,7 @@ RULE = (
     "sample() call; distinct = its (kind,b,t,n,seed,n_chains,chain) tuple; non-trivial = t>1 or b>0 or n_chains>1"
 )
 ASSUMPTIONS = ["non-overlap of streams is decided on the first 4096 64-bit outputs of each stream (no shared value, no shared window)"]
-REQUIRED = {"cli_streams_checked": {"quick": 16, "thorough": 100}, "resets_compared_with_untouched_model": {"quick": 40, "thorough": 250}, "recorded_samples_rechecked": {"quick": 150, "thorough": 900}, "cli_schedules_checked": {"quick": 24, "thorough": 300}, "cli_schedules_with_zero_burnin": {"quick": 12, "thorough": 150}, "captures_at_log_level_DEBUG": {"quick": 30, "thorough": 150}, "schedules_checked": {"quick": 500, "thorough": 2000}, "stream_pairs_checked": {"quick": 200, "thorough": 2000}, "vi_checked": {"quick": 40, "thorough": 250}}
+REQUIRED = {"schedules_called_with_positional_arguments": {"quick": 40, "thorough": 600}, "cli_streams_checked": {"quick": 16, "thorough": 100}, "resets_compared_with_untouched_model": {"quick": 40, "thorough": 250}, "recorded_samples_rechecked": {"quick": 150, "thorough": 900}, "cli_schedules_checked": {"quick": 24, "thorough": 300}, "cli_schedules_with_zero_burnin": {"quick": 12, "thorough": 150}, "captures_at_log_level_DEBUG": {"quick": 30, "thorough": 150}, "schedules_checked": {"quick": 500, "thorough": 2000}, "stream_pairs_checked": {"quick": 200, "thorough": 2000}, "vi_checked": {"quick": 40, "thorough": 250}}
 GRID = {"quick": (12, 5, 8), "thorough": (24, 7, 12)}
 
 
@@ -120,7 +120,13 @@ def run_shard(rec, tier, seed, shard, nshards):
         rec.case(("grid", b, t, n), nontrivial=(t > 1 or b > 0))
         w = {"b": b, "t": t, "n": n, "seed": sd, "n_chains": nch, "chain_index": ci}
         try:
-            res = sampling.sample(m, holder, seed=sd, n_chains=nch, chain_index=ci, n_burnin=b, thin=t)
+            if rng.random() < 0.3:
+                # every argument by position, in the documented order
+                res = sampling.sample(m, holder, sd, nch, ci, b, t)
+                rec.count("schedules_called_with_positional_arguments")
+                w["spelling"] = "positional"
+            else:
+                res = sampling.sample(m, holder, seed=sd, n_chains=nch, chain_index=ci, n_burnin=b, thin=t)
         except Exception as e:
             rec.violation("C17/schedule/raises", "sample raised %r" % (e,), w)
             continue
@@ -310,6 +316,15 @@ def run_shard(rec, tier, seed, shard, nshards):
         if not vary:
             sampling.sample(m, ThetaHolder(n_thetas=1), seed=sd, n_chains=nch, chain_index=ci, n_burnin=0, thin=1)
             return m.rng
+        if rng.random() < 0.3:
+            # the same triple, every argument by position
+            try:
+                sampling.sample(m, ThetaHolder(n_thetas=2), sd, nch, ci, 1, 2)
+                rec.count("captures_with_positional_arguments")
+                return m.rng
+            except Exception as e:
+                rec.violation("C17/schedule/raises", "sample(model, holder, %d, %d, %d, 1, 2) - every argument by position, documented order - raised %r" % (sd, nch, ci, e), {"seed": sd, "n_chains": nch, "chain_index": ci})
+                m = CountingModel()
         lg = logging.getLogger("batchie")
         lg2 = logging.getLogger("batchie.sampling")
         old = (lg.level, lg2.level)
